@@ -8,16 +8,18 @@ from vt.harness.common import ob, rerun_sets
 from vt.monitors import C17Rerun, OracleTracker, count
 
 
-def rerun_twin(ch, ctx, did, steps, mode="explicit", ghost=False, twin=False, rerun_order=True):
+def rerun_twin(ch, ctx, did, steps, mode="explicit", ghost=False, twin=False, rerun_order=True, statuses=None):
     wf = defs.get(did)
-    pol = Policy(rerun_order=rerun_order, steps=steps, by_task=True, tokens=True, rerun=mode, rerun_steps=steps, rerun_ok=True, rerun_ghost=ghost)
+    sts = tuple(statuses) if statuses else (S.SUCCEEDED, S.FAILED)
+    pol = Policy(rerun_order=rerun_order, statuses=sts, steps=steps, by_task=True, tokens=True, rerun=mode, rerun_steps=steps, rerun_ok=True, rerun_ghost=ghost)
     env = Env(ch, wf, "C17", monitors=[OracleTracker(), C17Rerun()], policy=pol)
     env.counters = ctx["counters"]
     try:
         env.run()
         if env.rerun_done and env.rerun_rejected is None and not env.inflight:
             redone = {a.okey for a in env.started[env.rerun_mark:] if getattr(a, "okey", None)}
-            clean = Env(ForcedChooser(ch, {k: True for k in redone}), wf, "C17", monitors=[], policy=Policy(steps=2 * steps + 2, by_task=True, tokens=True))
+            win = True if len(sts) == 2 else 0
+            clean = Env(ForcedChooser(ch, {k: win for k in redone}), wf, "C17", monitors=[], policy=Policy(steps=2 * steps + 2, by_task=True, tokens=True, statuses=sts))
             clean.run()
             if not clean.inflight:
                 count(env, "c17_twin_compared")
@@ -69,6 +71,10 @@ def obligations(tier):
             obs.append(o2)
         else:
             obs.extend(rerun_sets(o, labels, 2 if tier == "quick" else len(labels)))
+    for mode in ("default", "explicit"):
+        o = ob("C17", "e2c.%s.abend.D11" % mode, "vt.harness.C17:rerun_twin", {"did": "D11", "steps": 4, "mode": mode, "statuses": ["succeeded", "failed", "timeout", "abandoned"], "rerun_order": False}, timeout=900)
+        o["antecedents"] = ante
+        obs.append(o)
     o = ob("C17", "e2c.ghost.D04", "vt.harness.C17:rerun_twin", {"did": "D04", "steps": 4, "mode": "explicit", "ghost": True}, timeout=900)
     o["fixed"] = {"rr:ghost": True}
     o["antecedents"] = ["c17_rejected"]
